@@ -4,13 +4,15 @@ import os
 import re
 
 from .. import common as c
-from .. import gen, l1, translate
+from .. import gen, l1, translate, rs2lean
 
 THEOREMS = [("Sylvia.Thm.C13", "C13." + t) for t in
             ["methods_intact", "item_rest_intact", "item_attrs", "method_attrs", "no_framework_left",
              "helper_params_intact", "handler_params", "strip_idempotent"]] + \
            [("Sylvia.Thm.Obl.Complete.C13", "Obl.extraction_complete_C13"), ("Sylvia.Thm.Obl.T.svAttributes_documented", "Obl.svAttributes_documented"),
-            ("Sylvia.Thm.Obl.T.msg_is_framework", "Obl.msg_is_framework")]
+            ("Sylvia.Thm.Obl.T.msg_is_framework", "Obl.msg_is_framework")] + \
+           [("Sylvia.Thm.StripFn", "StripFn." + t) for t in ["remove_input_attr_eq", "fold_impl_item_fn_eq", "fold_trait_item_fn_eq", "fold_item_impl_eq",
+                                                             "fold_item_trait_eq", "rests_intact", "refines_model"]]
 
 FOREIGN_ITEM = ["allow(dead_code)", "cfg(all())", 'doc = " Contract docs, with `code`."', "rustfmt::skip",
                 "allow(clippy::too_many_arguments)", "cfg_attr(all(), allow(unused))", "svx::msg(exec)", "sv::unknown_thing(1)",
@@ -148,6 +150,12 @@ def run(ctx):
                         "the lint attribute `#[allow(clippy::new_without_default)]` the contract macro adds in front of the impl is not a change of the input",
                         "determinism of the real expander is observed (2 expansions in-process + 1 in a second process per program), not proved"]
     translate.regenerate()
+    # function translator: remove_input_attr and the four folds of `impl Fold for StripInput` -> Extracted/StripFns.lean; the theorems of
+    # Thm/StripFn.lean (the fold equals the model's `strip` on every item) are re-checked against what the source says now
+    strip_problems = rs2lean.regenerate("strip")
+    ctx.cov["function_translator_strip"] = {"source": "sylvia-derive/src/fold.rs (StripInput)", "output": "lean/Sylvia/Extracted/StripFns.lean", "problems": strip_problems}
+    if strip_problems:
+        ctx.obligation_failed("function-translator(strip)", "; ".join(strip_problems)[:1500])
     c.prove(ctx, ["Sylvia.Thm.C13"], THEOREMS)
 
     n = ctx.size(600, 30000)
